@@ -552,4 +552,39 @@ theorem msFull_get_endpoints (c p : Nat) (hc : 2 ≤ c) :
     rw [hf, List.getElem?_cons_succ, List.getElem?_append_right (by omega)]
     simp [hl]
 
+/-! ### the constrained traversal -/
+
+theorem traverse_spec (m : Nat) (geom : Bool) (v : Nat → Bool) :
+    ((traverse m geom v).1 = true ↔ geom = true ∧ ∀ j, 1 ≤ j → j ≤ m → v j = true) ∧
+    (traverse m geom v).2.2 ≤ m ∧
+    (∀ j, 1 ≤ j → j ≤ (traverse m geom v).2.2 → v j = true) ∧
+    ((traverse m geom v).2.2 < m → v ((traverse m geom v).2.2 + 1) = false) ∧
+    (traverse m geom v).2.1 = List.range' 1 (min m ((traverse m geom v).2.2 + 1)) := by
+  unfold traverse
+  cases hr : (linScan v 1 m).2 with
+  | some j =>
+    obtain ⟨h1, h2, h3, h4, h5⟩ := linScan_some hr
+    have hj : j - 1 + 1 = j := by omega
+    refine ⟨?_, by simp; omega, ?_, ?_, ?_⟩
+    · simp only [Bool.false_eq_true, false_iff, not_and]
+      intro _ hall
+      have := hall j h1 (by omega)
+      simp [h3] at this
+    · intro i hi1 hi2; exact h4 i hi1 (by simp at hi2; omega)
+    · intro _; simp only [hj]; exact h3
+    · simp only [h5, hj]
+      have : min m j = j := by omega
+      rw [this]; congr 1
+  | none =>
+    obtain ⟨h1, h2⟩ := linScan_none hr
+    refine ⟨?_, by simp, ?_, by simp, ?_⟩
+    · simp only
+      constructor
+      · intro hg; exact ⟨hg, fun j a b => h1 j a (by omega)⟩
+      · intro h; exact h.1
+    · intro i hi1 hi2; exact h1 i hi1 (by simp at hi2; omega)
+    · simp only [h2]
+      have : min m (m + 1) = m := by omega
+      rw [this]
+
 end OmplModel.Motion
